@@ -76,6 +76,7 @@ func (s *segmentMetadata) getIndex(vecIdx VectorIndex, txtIdx TextIndex, metaIdx
 	// Create new hybrid index
 	verifPoint("segment.load.begin", s.id, vecIdx, txtIdx, metaIdx)
 	idx := newHybridIndexLike(vecIdx, txtIdx, metaIdx)
+	verifPoint("segment.load.instances", s.id, idx)
 
 	// Open all segment files
 	hybridFile, err := os.Open(s.hybridPath)
